@@ -930,21 +930,30 @@ def fam_lut_mixed(rng):
     return net
 
 
-def fam_siamese(rng):
+def fam_siamese(rng, kind=None):
     """two or three convolutions that share ONE filter and bias constant (siamese branches), the first of them the first
     operator of the network with few input channels and stride 2: identity-keyed caches and in-place weight rewrites"""
     net = Net("siamese")
     dt = rng.choice(["int8", "int8", "uint8"])
     h, w, c = rng.choice([8, 12, 16, 20]), rng.choice([8, 12, 16, 20]), rng.choice([1, 2, 3, 4, 8])
+    if kind == "big":       # enough weights for several encoded ranges (two cores, depth slices); filter shared, biases not
+        h, w, c = rng.choice([8, 12]), rng.choice([8, 12]), rng.choice([16, 32])
     sc, zp = _rs(rng, 0.005, 0.1), _zp(rng, dt)
     a = net.input([1, h, w, c], dt, sc, zp, name="input0")
     b = net.input([1, h, w, c], dt, sc, zp, name="input1")
     k = rng.choice([(3, 3), (3, 3), (1, 1), (2, 2), (5, 5)])
     st = rng.choice([(2, 2), (2, 2), (1, 2), (1, 1)])
     oc = rng.choice([4, 8, 16])
+    if kind == "big":
+        oc, k, st = rng.choice([64, 96]), (3, 3), (1, 1)
     pad_ = rng.choice(["SAME", "VALID"])
     ya = conv2d(net, rng, a, oc, k, st, (1, 1), pad_, rng.choice(["NONE", "RELU"]), per_axis=False)
     shared = net.ops[-1]["inputs"][1:]
+    if rng.random() < 0.35 or kind == "big":
+        # share the filter only: the second user brings its own bias, so the compiler keeps a stand-alone scale tensor
+        wt0, b0 = shared
+        bd = np.random.RandomState(rng.getrandbits(31)).randint(-2000, 2000, oc)
+        shared = [wt0, net.tensor([oc], "int32", b0.scale, 0, bd, qdim=0)]
     yb = conv2d(net, rng, b, oc, k, st, (1, 1), pad_, "NONE", share=shared)
     outs = [ya, yb]
     if rng.random() < 0.4:      # a third user of the same constants behind another operator
